@@ -122,6 +122,9 @@ def deck(m):
             L += ["GCONPROD", " 'G1' ORAT 500 /", "/", "GEFAC", " 'G2' 0.9 /", "/"]
         if has("WTEST"):
             L += ["WTEST", " 'P1' 30 PE 5 1 /", "/"]
+        if has("WECON"):
+            # economic limits, every dimensioned item given (rates, ratios in both directions)
+            L += ["WECON", " 'P1' 5 500 0.95 2000 0.02 CON NO 1* RATE 0.9 CON 3000 7 /", "/"]
         if has("UDQ"):
             L += ["UDQ", " ASSIGN FU1 1.5 /", " DEFINE WU2 WOPR * 2 /", " UNITS WU2 'SM3/DAY' /", "/"]
         if has("ACTIONX"):
